@@ -1,5 +1,6 @@
 (** Correspondence entry point for the metric log (C19). *)
 From SV Require Import Model.Base Model.MetricLine Model.MetricLog Run.Common.
+From SV Require Export Spec.C19CrashPoint.
 Open Scope N_scope.
 
 Inductive lcmd :=
@@ -34,12 +35,6 @@ Fixpoint idx_pairs (fuel : nat) (base : N) (idx : bytes) : list Z * N :=
            ((zN (be_val (firstn 8 idx) 0) - zN (base / 1000))%Z :: zN (be_val (firstn 8 (skipn 8 idx)) 0) :: r, rest)
   end.
 
-(** numeric order for the dump *)
-Definition num_ltb (a b : mfile) : bool :=
-  if f_day a <? f_day b then true else if f_day b <? f_day a then false else f_no a <? f_no b.
-Fixpoint insert_num (x : mfile) (l : list mfile) : list mfile :=
-  match l with [] => [x] | y :: tl => if num_ltb y x then y :: insert_num x tl else x :: y :: tl end.
-
 Definition dump_file (base : N) (f : mfile) : list Z :=
   let '(pairs, rest) := idx_pairs (S (length (f_idx f))) base (f_idx f) in
   let lines := filter (fun l => match l with [] => false | _ => true end) (split_lines (f_log f) []) in
@@ -50,37 +45,6 @@ Definition dump_file (base : N) (f : mfile) : list Z :=
 Definition dump (base : N) (dir : list mfile) : list Z :=
   let fs := fold_right insert_num [] dir in
   zN (N.of_nat (length fs)) :: flat_map (dump_file base) fs.
-
-(** crash during the previous write: keep the first k bytes it issued (index entry, then lines) *)
-Definition same_names (a b : list mfile) : bool :=
-  let key := fun f => (f_day f, f_no f) in
-  let fa := fold_right insert_num [] a in
-  let fb := fold_right insert_num [] b in
-  (length fa =? length fb)%nat &&
-  forallb (fun p => (f_day (fst p) =? f_day (snd p)) && (f_no (fst p) =? f_no (snd p)) &&
-                   (length (f_log (fst p)) <=? length (f_log (snd p)))%nat &&
-                   (length (f_idx (fst p)) <=? length (f_idx (snd p)))%nat) (combine fa fb).
-
-Definition crash_file (k : N) (before after : mfile) : mfile :=
-  let lb := N.of_nat (length (f_log before)) in
-  let ib := N.of_nat (length (f_idx before)) in
-  let la := N.of_nat (length (f_log after)) in
-  let ia := N.of_nat (length (f_idx after)) in
-  if (lb =? la) && (ib =? ia) then after else
-  let didx := ia - ib in
-  if k <? didx then mkMF (f_day after) (f_no after) (firstn (N.to_nat lb) (f_log after)) (firstn (N.to_nat (ib + k)) (f_idx after))
-  else mkMF (f_day after) (f_no after) (firstn (N.to_nat (N.min la (lb + (k - didx)))) (f_log after)) (f_idx after).
-
-Definition crash (k : N) (before after : list mfile) : option (list mfile) :=
-  if same_names before after && negb (match after with [] => true | _ => false end) then
-    let changed := existsb (fun a => match find (fun b => same_file b (f_day a) (f_no a)) before with
-                                     | Some b => negb ((length (f_log b) =? length (f_log a))%nat && (length (f_idx b) =? length (f_idx a))%nat)
-                                     | None => false end) after in
-    if changed then
-      Some (map (fun a => match find (fun b => same_file b (f_day a) (f_no a)) before with
-                          | Some b => crash_file k b a | None => a end) after)
-    else None
-  else None.
 
 Definition set_dir (w : mlw) (d : list mfile) : mlw := mkMLW d (w_cur w) (w_latest w) (w_max_size w) (w_max_files w).
 
